@@ -286,7 +286,7 @@ def run(ctx):
         "supported subset as generated: declared-before-use types, 32-bit constants/composites, blocks of result-producing instructions without parameterised enumerants, phis, non-switch terminators",
         "`Debug` text of the structured representation is canonicalised type-directed by tools/srdebug.py"]
     return C.finish(ctx, level="proof", checker_cmd="lake build Rspirv.Props.C18Globals + #print axioms",
-                    rule="seeded modules of the supported subset whose block instructions are laid out from the lift field tables with pairwise distinct operand values (a field fed from the wrong position shows); plus unrestricted seeded modules (errors/panics must agree); distinct non-trivial = distinct lift_op opcodes lifted",
+                    rule="seeded modules of the supported subset whose block instructions are laid out from the lift field tables with pairwise distinct operand values (a field fed from the wrong position shows); plus unrestricted seeded modules (errors/panics must agree); half of the modules numbered from a shuffled id pool; implementation only: the (N+2)-th declared type referenced by vector / function type / constant / function for N around 2^8 and 2^16; distinct non-trivial = distinct lift_op opcodes lifted",
                     trusted=["translator lift_context.py", "hand model Lift.lean + differential harness (lift channel)", "tools/srdebug.py"])
 
 
